@@ -37,10 +37,10 @@ def patched(target, **names):
                     setattr(target, k, v)
 
 
-def script(body, **subst):
+def script(_body, **subst):
     """Build a replay script.  The script must print REPLAY-CONFIRMED iff the real
     code misbehaves on the witness."""
-    lines = body.split("\n")
+    lines = _body.split("\n")
     first = next((l for l in lines if l.strip()), "")
     ind = first[: len(first) - len(first.lstrip())]
     s = "\n".join(l[len(ind):] if l.startswith(ind) else l for l in lines)
